@@ -266,3 +266,30 @@ func AnalyzeThrowAware(g *Grammar) *Analysis {
 	}
 	return a
 }
+
+// InlinableRules returns the rules that -optimize-grammar replaces by a copy at every
+// reference ("replace rule references with a copy of the referenced Rule, if the referenced
+// rule it self has no references", applied until nothing changes): the least set of defined
+// rules all of whose references lead to rules of the set. Rules on a cycle are never in it.
+func InlinableRules(g *Grammar) map[string]bool {
+	inl := map[string]bool{}
+	for changed := true; changed; {
+		changed = false
+		for _, r := range g.Rules {
+			if inl[r.Name] {
+				continue
+			}
+			ok := true
+			r.Expr.Walk(func(e *Expr) {
+				if e.K == KRef && !inl[e.Name] {
+					ok = false
+				}
+			})
+			if ok {
+				inl[r.Name] = true
+				changed = true
+			}
+		}
+	}
+	return inl
+}
